@@ -124,7 +124,8 @@ class BackgroundFamily:
 
     def make_cfg(self, rng, avoid):
         return {
-            'box': rng.pick([[5, 5], [7, 6], [10, 10], [4, 9], 'image', 8]),
+            'box': rng.pick([[5, 5], [7, 6], [10, 10], [4, 9], 'image', 8,
+                             [5, 5], [7, 6], 1]),
             'mask': rng.chance(0.4), 'coverage': rng.chance(0.3),
             'exclude_percentile': rng.pick([10.0, 10.0, 50.0, 100.0]),
             'filter_size': rng.pick([1, 3, 3, [3, 5], [1, 3]]),
@@ -1157,7 +1158,9 @@ class FinderFamily:
         return {'op': 'call', 'image': rng.randrange(len(
             st.scene['images'])), 'mask': rng.chance(0.3),
             'method': rng.pick(['call', 'find_stars']),
-            'reuse_buffer': rng.chance(0.5)}
+            'reuse_buffer': rng.chance(0.5),
+            # this exposure comes with / without a unit, unlike the others
+            'unit_flip': rng.chance(0.12)}
 
     def step(self, st, op):
         if st.dead:
@@ -1166,7 +1169,7 @@ class FinderFamily:
         if op['image'] >= len(st.scene['images']):
             raise Inapplicable('image')
         data = dec(st.scene['images'][op['image']]).copy()
-        if st.cfg['unit']:
+        if bool(st.cfg['unit']) != bool(op.get('unit_flip')):
             data = data * u.Jy
         mask = dec(st.scene['mask']).copy() if op['mask'] else None
 
